@@ -1,6 +1,21 @@
 import PqlModel.Props.C06
+import PqlModel.Props.C06Subst
+import PqlModel.Props.C14Order
 #print axioms Pql.C06.C06_shadow
 #print axioms Pql.C06.C06_other_binding_irrelevant
 #print axioms Pql.C06.C06_after_ignored
 #print axioms Pql.C06.C06_quoted_not_substituted
 #print axioms Pql.C06.C06_bound_substituted
+#print axioms Pql.C06.C06_let_value_is_unit
+#print axioms Pql.C06.C06_let_binds_unit
+#print axioms Pql.C06.C06_subst_expr
+#print axioms Pql.C06.C06_subst_expr_parens
+#print axioms Pql.C06.C06_subst_expr_atom
+#print axioms Pql.C06.C06_subst_operand_exact
+#print axioms Pql.C06.C06_subst_lets
+#print axioms Pql.C06.C06_resolveLets_env
+#print axioms Pql.C06.C06_lets_then_query
+#print axioms Pql.C06.C06_subst_program
+#print axioms Pql.C06.C06_join_counterexample
+#print axioms Pql.C06.C06_join_counterexample_not_related
+#print axioms Pql.C14.C14_unused_param_irrelevant
